@@ -1290,6 +1290,10 @@ func (env *SpecEnv) evalCall(c *ast.CallExpr) TV {
 				return TV{Scalar{True}, boolT}
 			}
 			return TV{Scalar{BoolLit(env.st.Locks[lockKey(p)] >= want)}, boolT}
+		case "cancelled":
+			// cancelled(f): the cancel function f (a context.CancelFunc) has been called
+			f := env.eval(c.Args[0]).V.(Scalar).T
+			return TV{Scalar{Select(env.st.heapGet(ctxCancelledClass, SArr(SInt, SBool)), f)}, boolT}
 		case "closed":
 			// closed(ch): close(ch) has been executed
 			ch := env.eval(c.Args[0]).V.(Scalar).T
